@@ -49,6 +49,58 @@ Theorem C06_history_refuse : forall k st c,
 Proof. exact history_refuse. Qed.
 Print Assumptions C06_history_refuse.
 
+(* GRAPH-LIBRARY WRITERS.  geff.write / write_nx / write_rx / write_sg run their own guard and then reach write_arrays with
+   overwrite=False (api_write, Write.v: two guards in a row).  The full statement -- "geff.write(overwrite=...) behaves as
+   write_arrays(overwrite=...)" on every location -- is: *)
+Definition C06_api_full : Prop := forall k g md v ov pre,
+  api_write k g md v ov (init pre) = write_arrays k g md v ov (init pre).
+
+(* refusal: same as write_arrays, no mutation *)
+Theorem C06_api_refuse : forall k pre g md v,
+  exists_geff k pre = true -> api_write k g md v false (init pre) = (init pre, Err FileExistsError).
+Proof. exact api_refuse. Qed.
+Print Assumptions C06_api_refuse.
+
+(* nothing there yet: identical to write_arrays *)
+Theorem C06_api_fresh : forall k g md v ov s,
+  exists_geff k (s_root s) = false -> api_write k g md v ov s = write_arrays k g md v ov s.
+Proof. exact api_fresh. Qed.
+Print Assumptions C06_api_fresh.
+
+(* overwrite over a geff: identical to write_arrays(overwrite=True) -- hence C06_replace applies -- exactly when the location does
+   not count as occupied once the old geff is deleted: every store object (whatever else its root holds) ... *)
+Theorem C06_api_overwrite_partial : forall k a ch g md v s,
+  s_root s = Some (ZG a ch) -> ahas "geff" a = true -> exists_geff k (cleaned k a ch) = false ->
+  api_write k g md v true s = write_arrays k g md v true s.
+Proof. exact api_overwrite_same. Qed.
+Print Assumptions C06_api_overwrite_partial.
+
+Theorem C06_api_overwrite_store_object : forall a ch g md v s,
+  s_root s = Some (ZG a ch) -> ahas "geff" a = true ->
+  api_write KObj g md v true s = write_arrays KObj g md v true s.
+Proof. exact api_overwrite_obj. Qed.
+Print Assumptions C06_api_overwrite_store_object.
+
+(* ... but NOT a directory that holds the geff beside other members (known finding
+   graph-writer-overwrite-path-beside-foreign-members): for EVERY graph the old geff is deleted and FileExistsError is raised *)
+Theorem C06_api_overwrite_beside : forall a ch g md v s,
+  s_root s = Some (ZG a ch) -> ahas "geff" a = true -> adel path_EDGES (adel path_NODES ch) <> [] ->
+  exists tr, api_write KPath g md v true s
+             = (mkst (Some (ZG (adel "geff" a) (adel path_EDGES (adel path_NODES ch)))) tr, Err FileExistsError).
+Proof. exact api_overwrite_path_beside. Qed.
+Print Assumptions C06_api_overwrite_beside.
+
+Theorem C06_api_refuted : ~ C06_api_full.
+Proof.
+  intros H.
+  specialize (H KPath (mkwg (mkarr DU8 [1%nat] [5]%Z) (mkarr DU8 [0%nat; 2%nat] []) (Some []) (Some [])) (mkmd true None [] [] 0%Z) true true
+                (Some (ZG [("geff", AGeff (Some (mkmd true None [] [] 0%Z)))]
+                          [("nodes", ZG [] [("ids", ZA (mkarr DU8 [0%nat] []))]); ("edges", ZG [] [("ids", ZA (mkarr DU8 [0%nat; 2%nat] []))]);
+                           ("seg", ZG [] [])]))).
+  vm_compute in H. discriminate H.
+Qed.
+Print Assumptions C06_api_refuted.
+
 (* non-vacuity: write A (property "old", uint16 ids); refuse B without overwrite; overwrite with B (int8 ids, property "new"):
    nothing named "old" is left, the foreign sibling is *)
 Example C06_nonvacuous :
